@@ -315,7 +315,7 @@ func (w *World) BuildTx(t *Tx, forCheck bool) *BuiltTx {
 		}
 		signers = []Addr{grantee}
 	case WrapGov:
-		veto := len(t.Ops) > 0 && t.Ops[0].Flag
+		veto := len(t.Ops) > 0 && t.Ops[0].Flag && t.Ops[0].P != nil // (Flag means something else for the other operations)
 		if veto {
 			w.Class("gov.vetoed-proposal")
 		}
@@ -534,6 +534,9 @@ func (w *World) RunTx(t *Tx) *BuiltTx {
 		}
 		w.tracef("  tx code=%d wrap=%d fault=%d fee=%s %s %s", r.Code, t.Wrap, t.Fault, bt.Fee, desc, logs)
 		w.judge(bt)
+		if os.Getenv("VERIF_DEBUG_GOV") != "" && t.Wrap == WrapGov && len(bt.Ops) > 0 && bt.Ops[0].Op.Rule == 9 {
+			fmt.Println("GOV9:", bt.Ops[0].Op.Kind, r.Code, short(r.Log))
+		}
 		if len(bt.Ops) == 1 && t.Wrap == WrapTop && t.Fault == 0 {
 			if bt.OK {
 				w.Class("ok." + bt.Ops[0].Op.Kind)
